@@ -148,7 +148,7 @@ func (ex *Exec) callModKeys(fr *frame, c *ssa.CallCommon, keys map[string]bool, 
 	keys["*"] = true
 }
 
-var externalModelNames = map[string]bool{"strings.HasPrefix": true, "strings.Contains": true, "(go/token.Pos).IsValid": true}
+var externalModelNames = map[string]bool{"strings.HasPrefix": true, "strings.Contains": true, "(go/token.Pos).IsValid": true, "strconv.Unquote": true, "strings.Trim": true}
 
 func (ex *Exec) closureOfLocal(v ssa.Value) *ssa.Function {
 	u, ok := v.(*ssa.UnOp)
